@@ -325,7 +325,7 @@ pub fn run(tier: &str) -> i32 {
     let t0 = Instant::now();
     let mut o = Outcome::new("C14", tier, "model_checking");
     o.cov("exhaustive", json!(true));
-    fold_e3(&mut o, "C14", tier, &bodies(tier), "");
+    fold_e3(&mut o, "C14", tier, &crate::e3::with_variants(bodies(tier), tier), "");
     o.cov("rule", json!("for each body (2-3 client threads x 1-2 operations on colliding keys through cloned handles, optionally fjall's own worker threads with a tiny memtable / prepared write stall / journal rotation) every schedule with at most `preemption_bound` preemptions at the hooked scheduling points is executed on the real code; the recorded call/return history must be linearizable against a map model (brute force), scans satisfy the clause the statement gives them, no operation errors, no deadlock, no livelock within the horizon. states = schedules executed."));
     o.assumptions = vec![
         "calls into lsm-tree are treated as atomic, linearizable steps (trusted base); scheduling points are fjall-level synchronisation operations and the hooked critical sections".into(),
@@ -340,7 +340,7 @@ pub fn replay(v: &serde_json::Value) -> i32 {
     let tier = v["variant"]["tier"].as_str().unwrap_or("quick");
     let bi = v["variant"]["body_index"].as_u64().unwrap_or(0) as usize;
     let choices: Vec<usize> = v["variant"]["choices"].as_array().map(|a| a.iter().filter_map(|c| c.as_u64().map(|c| c as usize)).collect()).unwrap_or_default();
-    let bs = bodies(tier);
+    let bs = crate::e3::with_variants(bodies(tier), tier);
     match bs.get(bi) {
         Some(b) => replay_schedule(&*b.body, &choices),
         None => 2,
